@@ -157,6 +157,10 @@ def nopOf (j : Json) : Except String Spydr.Names.Op := do
   | "setNs" => pure (.setNs (← elOf (← j.getObjVal? "e")) (← polOf (← getStr j "pol")))
   | "delNs" => pure (.delNs (← elOf (← j.getObjVal? "e")))
   | "setDefault" => pure (.setDefault (← polOf (← getStr j "pol")))
+  | "createIn" =>
+    let nm := match j.getObjVal? "name" with | .ok (.str v) => some v | _ => none
+    let idt := match j.getObjVal? "ident" with | .ok (.str v) => some v | _ => none
+    pure (.createIn (← elOf (← j.getObjVal? "p")) (← elOf (← j.getObjVal? "c")) nm idt)
   | _ => throw s!"unknown names op {t}"
 
 def nresStr : Spydr.Names.Res → String
